@@ -1,0 +1,9 @@
+//go:build !go1.20
+// +build !go1.20
+
+package cache
+
+// deleteEntry removes the key, sync.Map.CompareAndDelete is not available before go1.20.
+func (c *syncMap) deleteEntry(key, _ interface{}) {
+	c.data.Delete(key)
+}
